@@ -21,6 +21,7 @@ import (
 	"io"
 	"math"
 	"net"
+	"strings"
 	"sync"
 	"time"
 
@@ -74,13 +75,16 @@ func nwPriv(id int) ed25519.PrivateKey {
 	return k
 }
 
+// nwScale: real seconds per model clock unit
+var nwScale int64 = 3600
+
 // nwShift maps a model instant to a real one with the same order relation to the clock.
 func nwShift(v uint64) uint64 {
 	if v > math.MaxInt64 {
 		return v
 	}
 	d := int64(v) - mwClock
-	const scale = 3600
+	scale := nwScale
 	if d > (math.MaxInt64-nwNow)/scale {
 		return math.MaxInt64
 	}
@@ -142,16 +146,27 @@ func (k *mwKey) Verify(d []byte, s *ssh.Signature) error { return nil }
 var mwCerts []*ssh.Certificate // registry; blob of mwCerts[i] is {'c', i}
 var mwDecodes []bool           // does the certificate's KeyID decode as a YSSHCA KeyID?
 
+// mwPadKeyID: KeyIDs carry a trailing newline (what json.Encoder emits; the
+// JSON decoder accepts surrounding white space)
+var mwPadKeyID bool
+var mwCertSnap []ssh.Certificate // the fields of every registered certificate as created
+
 func mwNewCert(keyID int, va, vb uint64, decodes bool) *ssh.Certificate {
 	c := &ssh.Certificate{Key: &mwKey{id: keyID}, ValidAfter: va, ValidBefore: vb, KeyId: "N"}
 	if decodes {
 		c.KeyId = "Y"
+	}
+	if mwPadKeyID {
+		c.KeyId += "\n"
 	}
 	if vIsNative() {
 		c = &ssh.Certificate{Key: mwPlainKey(keyID), ValidAfter: nwShift(va), ValidBefore: nwShift(vb), KeyId: "not a key id", CertType: ssh.UserCert,
 			Nonce: []byte{byte(len(mwCerts))}, Serial: uint64(len(mwCerts))}
 		if decodes {
 			c.KeyId = nwKeyID
+		}
+		if mwPadKeyID {
+			c.KeyId += "\n"
 		}
 		sg, _ := ssh.NewSignerFromKey(nwPriv(100))
 		if err := c.SignCert(crand.Reader, sg); err != nil {
@@ -160,7 +175,21 @@ func mwNewCert(keyID int, va, vb uint64, decodes bool) *ssh.Certificate {
 	}
 	mwCerts = append(mwCerts, c)
 	mwDecodes = append(mwDecodes, decodes)
+	mwCertSnap = append(mwCertSnap, *c)
 	return c
+}
+
+// mwCertsIntact: no operation rewrote a field of a certificate it was handed
+func mwCertsIntact() bool {
+	ok := true
+	for i, c := range mwCerts {
+		sn := &mwCertSnap[i]
+		if c.KeyId != sn.KeyId || c.Key == nil || string(c.Key.Marshal()) != string(sn.Key.Marshal()) || c.Serial != sn.Serial || c.CertType != sn.CertType || len(c.ValidPrincipals) != len(sn.ValidPrincipals) {
+			ok = false
+		}
+		ok = vAnd(ok, vAnd(c.ValidAfter == sn.ValidAfter, c.ValidBefore == sn.ValidBefore))
+	}
+	return ok
 }
 
 func mwCertIndex(c *ssh.Certificate) int {
@@ -182,6 +211,9 @@ func mwCertMarshal(c *ssh.Certificate) []byte {
 	if i < 0 {
 		return []byte{'c', 0xff}
 	}
+	if c.KeyId != mwCertSnap[i].KeyId {
+		return []byte{'c', byte(i), '!'} // a different certificate now
+	}
 	return mwCertBlob(i)
 }
 func mwCertType(c *ssh.Certificate) string { return mwCertFormat }
@@ -197,7 +229,7 @@ func mwParsePublicKey(in []byte) (ssh.PublicKey, error) {
 }
 
 func mwKeyIDUnmarshal(s string) (*keyid.KeyID, error) {
-	if s == "Y" {
+	if strings.TrimSpace(s) == "Y" {
 		return &keyid.KeyID{Version: 1, TransID: "t", TouchPolicy: keyid.NeverTouch}, nil
 	}
 	return nil, errors.New("model: not a YSSHCA KeyID")
@@ -434,7 +466,7 @@ func mwPutMem(s *Server, c *ssh.Certificate) {
 
 // mwInv: the representation invariant of the in-memory table.
 func mwInv(s *Server) bool {
-	ok := true
+	ok := mwCertsIntact()
 	for h, c := range s.certs {
 		if c == nil || c.Certificate == nil {
 			return false
